@@ -54,7 +54,7 @@ def run(cx):
     import C13
     # ---------------------------------------------------------------- P1 (shared with C13.G3)
     U = '<hickory_server::store::sqlite::SqliteZoneHandler<P> as hickory_server::zone_handler::ZoneHandler>::'
-    f = cx.fn('C12.P1', U + 'update::{closure#0}')
+    f = cx.fn('C12.P1', U + 'update::{closure@pin#0}')
     if f:
         AU = r'await\(SqliteZoneHandler::authorize_update\(\^arg1,\^arg2,\^arg3\)\)@Ready\.0\.0'
         PR = r'await\(SqliteZoneHandler::verify_prerequisites\(\^arg1,<MessageRequest as UpdateRequest>::prerequisites\(\^arg2\)\)\)@Ready\.0'
@@ -141,8 +141,8 @@ def run(cx):
         cx.guard('C12.G2', f0, {'all-records-applied': r"^!ok\(<Iter<'a;T> as Iterator>::next\(\^arg2\)\)$"}, expect=1, fn=u)
         for s in f0:
             cx.check('C12.G2', not cx.has_guard(s, r'^var\(updated\)$') or not cx.has_guard(s, r'^\^arg3$'), u.path, s.key(), 'Ok(false)-only-when-not(updated&&auto)', '', s.loc)
-    rc = cx.fn('C12.G1', S + 'update_records::{closure#0}::{closure#0}')
-    for g in prog.find(r'SqliteZoneHandler::update_records::\{closure#0\}::\{closure#\d+\}$'):
+    rc = cx.fn('C12.G1', S + 'update_records::{closure#0}::{closure@retain#0}')
+    for g in prog.find(r'SqliteZoneHandler::update_records::\{closure#0\}::\{closure[^}]*\}$'):
         t = cx.true_returns(g)
         if any('record_type' in s.term or any('record_type' in e for e in s.extra) for s in t) and any('name' in s.term or cx.has_guard(s, r'name') for s in t):
             # retain predicate: keep if other name, or apex SOA/NS ... as written: name != rr_name || ((SOA||NS) && name != origin)
